@@ -146,10 +146,13 @@ class _Src:
     def __init__(self):
         self.out = []
         self.bol = True
+        self.line = 1
+        self.anon_line = {}     # line of the <%block> tag -> block id
 
     def emit(self, s):
         if s:
             self.out.append(s)
+            self.line += s.count("\n")
             self.bol = s.endswith("\n")
 
     def fresh_line(self):
@@ -244,6 +247,7 @@ def _node_src(s, n):
         s.emit("</%call>")
     elif k == "block":
         s.fresh_line()
+        s.anon_line[n[1]] = s.line
         s.emit("<%%block%s>" % _flags_attrs(n[2]))
         _body_src(s, n[3])
         s.emit("</%block>")
@@ -251,13 +255,15 @@ def _node_src(s, n):
         raise ValueError(n)
 
 
-def to_source(body, page_enable_loop=None):
+def to_source(body, page_enable_loop=None, with_anon=False):
     from harness.c03_rt import PRELUDE
     s = _Src()
     s.emit(PRELUDE)
     if page_enable_loop is not None:
         s.emit('<%%page enable_loop="%s"/>' % ("True" if page_enable_loop else "False"))
     _body_src(s, body)
+    if with_anon:
+        return "".join(s.out), dict(s.anon_line)
     return "".join(s.out)
 
 
@@ -637,6 +643,7 @@ def _n_body(N, body, lp, enable_loop):
             inner = ("__lp%d" % u) if enable_loop else lp
             N.w("for __i%d, v%d in enumerate(__items%d):" % (u, n[1], u))
             N.ind += 1
+            N.w("pass")
             if enable_loop:
                 N.w("__lp%d = NLoop(__i%d, len(__items%d), %s)" % (u, u, u, lp if lp else "None"))
             _n_hoist(N, n[3], inner, enable_loop)
@@ -746,8 +753,12 @@ def _kinds(body):
     re-implementation of the lexer's bookkeeping, from its description): a comment, a control structure (its
     primary line only), anything else - and for a tag, the nodes inside it as well"""
     out = []
+    prev = None
     for n in body:
         k = n[0]
+        if k == "text" and prev == "text":
+            continue            # adjacent text runs are one Text node
+        prev = k
         if k == "comment":
             out.append("kc")
         elif k in ("if", "for", "while", "try", "with"):
@@ -769,8 +780,12 @@ def _hdr(kw, text, loopref, parts=None):
 
 def _ct(body, top_assigns):
     out = []
+    prev = None
     for n in body:
         k = n[0]
+        if k == "text" and prev == "text":
+            continue            # adjacent text runs are one Text node
+        prev = k
         if k == "comment":
             out.append("c")
         elif k == "text":
@@ -778,10 +793,8 @@ def _ct(body, top_assigns):
         elif k == "expr":
             out.append("s %s %d 0" % (enc("__M_writer(0)"), 1 if ex_mentions_loop(n[1]) else 0))
         elif k == "py":
-            out.append("b %s %d" % (enc(py_block_text(n[1], n[2])), 1 if py_mentions_loop(n[1]) else 0))
-            if top_assigns:
-                out.append("s %s 0 0" % enc("__M_locals_builtin_stored = 0"))
-                out.append("s %s 0 0" % enc("__M_locals.update(0)"))
+            out.append("b %s %d %s" % (enc(py_block_text(n[1], n[2])), 1 if py_mentions_loop(n[1]) else 0,
+                                       ("1 " + enc("0")) if top_assigns else "0"))
         elif k in ("def", "modcode"):
             inner = _kinds(n[4]) if k == "def" else []
             lr = any(detected(c) for c in n[4]) if k == "def" else False
@@ -866,6 +879,8 @@ class Knobs:
         self.loop_only_in_call_expr = False
         self.unsized_len = False
         self.for_comment_colon = False
+        self.closure_mixed = False
+        self.lowerable = False      # stay inside the grammar of the shared target language (harness/gen_template.py)
         for k, v in kw.items():
             assert hasattr(self, k), k
             setattr(self, k, v)
@@ -882,6 +897,8 @@ class _Sc:
         self.unsized = False      # the innermost for iterates a generator / iterator
         self.buffering = False
         self.top = True
+        self.in_block = False
+        self.no_loopctx = False   # inside a closure that reads the enclosing `loop`: its own `% for`s stay plain
         self.depth = 0
         self.__dict__.update(kw)
 
@@ -928,6 +945,8 @@ class Gen:
 
     def loop_attr(self, sc):
         r = self.rng
+        if self.k.lowerable:
+            return "index"
         attrs = list(SIZED_FREE)
         if not sc.unsized or self.k.unsized_len:
             attrs += ["last", "reverse_index"]
@@ -939,7 +958,7 @@ class Gen:
     def atom(self, sc):
         r = self.rng
         if r.random() < self.k.p_boom:
-            return ["kboom"] if r.random() < 0.2 else ["boom"]
+            return ["kboom"] if (r.random() < 0.2 and not self.k.lowerable) else ["boom"]
         if sc.vars and r.random() < 0.5:
             return ["var", r.choice(sc.vars)]
         return ["lit", self.lit()]
@@ -949,7 +968,7 @@ class Gen:
         choices = ["atom"] * 4
         if depth < 2:
             choices += ["cat", "filt"]
-            if sc.defs:
+            if [d for d in sc.defs if not self.info[d]["uses_caller"]]:
                 choices += ["call", "call"]
         if loop_ok and sc.loop and self.k.enable_loop:
             choices += ["loop"] * 3
@@ -963,7 +982,7 @@ class Gen:
         if k == "filt":
             return ["filt", r.randrange(6), self.expr(sc, depth + 1, loop_ok)]
         if k == "call":
-            d = r.choice(sc.defs)
+            d = r.choice([d for d in sc.defs if not self.info[d]["uses_caller"]])
             return ["call", d, [self.expr(sc, depth + 1, loop_ok) for _ in range(self.info[d]["arity"])]]
         if k == "loop":
             return ["loop", self.loop_attr(sc)]
@@ -973,7 +992,7 @@ class Gen:
 
     def cond(self, sc):
         r = self.rng
-        if sc.loop and self.k.enable_loop and r.random() < 0.3:
+        if sc.loop and self.k.enable_loop and r.random() < 0.3 and not self.k.lowerable:
             attrs = ["first", "even", "odd", "index"]
             if not sc.unsized or self.k.unsized_len:
                 attrs += ["last", "reverse_index"]
@@ -1021,6 +1040,9 @@ class Gen:
             c.pop("ret", None)
         if not sc.defs:
             c.pop("call", None)
+        if sc.in_block:
+            for k in ("def", "call", "block"):
+                c.pop(k, None)
         items = sorted(c.items())
         tot = sum(w for _, w in items)
         x = self.rng.random() * tot
@@ -1071,9 +1093,12 @@ class Gen:
             if self.k.multi_except and r.random() < 0.6:
                 nh = r.choice([2, 2, 3])
             handlers = []
-            for _ in range(nh):
+            for hi in range(nh):
                 h = self.body(sc.sub(depth=d))
-                handlers.append([r.choice(EXCS), h])
+                excs = EXCS[:2] if self.k.lowerable else EXCS
+                if hi < nh - 1:
+                    excs = [e for e in excs if e is not None]      # a bare `except:` must be the last clause
+                handlers.append([r.choice(excs), h])
             return ["try", self.body(sc.sub(depth=d), allow_special=r.random() < 0.3), handlers, self.opts(nh + 2)]
         if k == "with":
             v = self.fresh_var()
@@ -1086,7 +1111,7 @@ class Gen:
             return self.gen_call(sc)
         if k == "block":
             fl = FL(buffered=r.random() < 0.3, filters=[r.randrange(6)] if r.random() < 0.3 else [])
-            s2 = sc.sub(depth=d, in_loop=False, loop=None, nested_for=False, top=False,
+            s2 = sc.sub(depth=d, in_loop=False, loop=None, nested_for=False, top=False, in_block=True,
                         buffering=fl["buffered"] or bool(fl["filters"]))
             s2.vars = [v for v in sc.vars if v in self._param_vars]
             return ["block", self.fresh_def(), fl, self.body(s2, allow_special=False)]
@@ -1097,22 +1122,25 @@ class Gen:
         d = sc.depth + 1
         v = self.fresh_var()
         n = r.choice([0, 1, 1, 2, 2, 3, 4])
-        kind = r.choice(["list", "list", "list", "str", "gen", "iter"])
+        kind = "list" if self.k.lowerable else r.choice(["list", "list", "list", "str", "gen", "iter"])
         if kind == "str":
             it = ["str", "".join(r.choice("pqr789") for _ in range(n))]
         else:
-            it = [kind, [self.expr(sc, 1, loop_ok=r.random() < 0.3) for _ in range(n)]]
-        use_loop = r.random() < self.k.p_loop_use and self.k.enable_loop
+            it = [kind, [self.expr(sc, 1, loop_ok=r.random() < 0.3 and not sc.no_loopctx) for _ in range(n)]]
+        use_loop = r.random() < self.k.p_loop_use and self.k.enable_loop and not sc.no_loopctx
         s2 = sc.sub(depth=d, in_loop=True, loop="direct" if (use_loop or sc.loop == "direct") else sc.loop,
                     nested_for=(sc.loop == "direct"), unsized=kind in ("gen", "iter"))
         if not use_loop and sc.loop:
             # `loop` inside this body would denote this loop: LoopVariable then mangles it
             s2.loop = "direct"
-        if not self.k.enable_loop:
+        if not self.k.enable_loop or sc.no_loopctx:
             s2.loop = None
         s2.vars.append(v)
         body = self.body(s2)
-        orelse = self.body(sc.sub(depth=d)) if r.random() < 0.22 else None
+        # the `% else:` clause runs after exhaustion but before `% endfor`: the property text does not say which
+        # loop `loop` denotes there (mako: still this loop, index = n) - `loop` is not used in it
+        orelse = self.body(sc.sub(depth=d, loop=None, nested_for=False)) \
+            if (r.random() < 0.22 and not self.k.lowerable) else None
         o = self.opts(3)
         node = ["for", v, it, body, orelse, o]
         if self.k.enable_loop:
@@ -1129,7 +1157,8 @@ class Gen:
         """reference `loop` once: directly, only in an `% elif` header, only in an `% except` body … (varied)"""
         r = self.rng
         body = node[3]
-        where = r.choice(["direct", "direct", "elif", "except", "pyif", "iter"])
+        where = r.choice(["direct", "direct", "except", "iter"] if self.k.lowerable
+                         else ["direct", "direct", "elif", "except", "pyif", "iter"])
         attr = self.loop_attr(s2)
         cattrs = ["index", "first", "odd"] + ([] if s2.unsized and not self.k.unsized_len else ["last"])
         if where == "direct":
@@ -1156,8 +1185,9 @@ class Gen:
         params = [self.fresh_var() for _ in range(r.choice([0, 0, 1, 1, 2]))]
         fl = FL(buffered=r.random() < 0.3, filters=[r.randrange(6)] if r.random() < 0.3 else [])
         closure_loop = sc.loop if not sc.top else None
+        reads, plain = self.closure_mode(closure_loop)
         s2 = sc.sub(depth=sc.depth + 1, in_def=True, in_loop=False, top=False, nested_for=False,
-                    loop=("closure" if closure_loop else None),
+                    loop=("closure" if reads else None), no_loopctx=plain,
                     buffering=fl["buffered"] or bool(fl["filters"]))
         s2.vars = [v for v in sc.vars if v in self._param_vars] + params
         self._param_vars.update(params)
@@ -1176,11 +1206,26 @@ class Gen:
         cands = [d for d in sc.defs if self.info[d]["uses_caller"]] or sc.defs
         callee = r.choice(cands)
         loop_in_args = bool(sc.loop) and self.k.enable_loop and r.random() < 0.25
-        e = ["call", callee, [self.expr(sc, 1, loop_ok=loop_in_args) for _ in range(self.info[callee]["arity"])]]
+        # arguments without def calls: a def called while the expression is evaluated would take the pending caller
+        e = ["call", callee, [self.expr(sc, 2, loop_ok=loop_in_args) for _ in range(self.info[callee]["arity"])]]
+        reads, plain = self.closure_mode(sc.loop)
         s2 = sc.sub(depth=sc.depth + 1, in_loop=False, top=False, buffering=False, nested_for=False,
-                    loop=("closure" if sc.loop else None))
+                    loop=("closure" if reads else None), no_loopctx=plain)
         body = self.body(s2, allow_special=False)
         return ["call", e, body]
+
+    def closure_mode(self, outer_loop):
+        """a closure (nested def, <%call> body) under a `% for`: either it reads the enclosing `loop` and its own
+        `% for`s have no loop context, or it has loops of its own and does not read the enclosing one - mako's
+        closures cannot do both (`loop = __M_loop._enter(…)` makes `loop` a local of the closure: recorded finding).
+        -> (reads the enclosing loop, own loops stay plain)"""
+        if not outer_loop or not self.k.enable_loop:
+            return False, False
+        if self.k.closure_mixed:
+            return True, False
+        if self.rng.random() < 0.6:
+            return True, True
+        return False, False
 
     def template(self):
         r = self.rng
@@ -1191,7 +1236,7 @@ class Gen:
             body.append(self.gen_def(sc))
         rest = self.body(sc, r.randint(2, self.k.max_body + 2))
         body = body + rest
-        if not self.k.loop_only_in_closure or not self.k.loop_only_in_call_expr:
+        if self.k.enable_loop and (not self.k.loop_only_in_closure or not self.k.loop_only_in_call_expr):
             fix_loop_scopes(body, self.k)
         return body
 
